@@ -199,6 +199,7 @@ type env struct {
 	classes map[string]int
 	trace   []obs
 	nt      bool
+	extra   []string // ids of the transactions of "burst" events
 }
 
 func newEnv() (*env, error) {
@@ -491,6 +492,7 @@ type event struct {
 	How      string `json:"how,omitempty"`      // reload kind
 	Endpoint bool   `json:"endpoint,omitempty"` // reload carries an enabled endpoint remedy (HAProxy calls)
 	Ms       int64  `json:"ms,omitempty"`       // adv: duration; until: offset from the transaction's request + 30 s
+	N        int    `json:"n,omitempty"`        // burst: that many further transactions send their request at this instant
 }
 
 type hist struct {
@@ -504,12 +506,22 @@ type failure struct {
 }
 
 func (e *env) run(h hist, probe bool) error {
-	for _, v := range h.Events {
+	for i, v := range h.Events {
 		var err error
 		switch v.K {
 		case "req":
 			e.classes["ev:request"]++
 			err = e.lookup(h.IDs[v.Txn], "request")
+		case "burst": // a wave of traffic: N transactions of their own (they are answered in the closing probe)
+			e.classes["ev:burst"]++
+			for j := 0; j < v.N && err == nil; j++ {
+				id := fmt.Sprintf("wave%d-%d", i, j)
+				e.extra = append(e.extra, id)
+				err = e.lookup(id, "request")
+			}
+			if len(e.extra) >= 128 {
+				e.classes["case:>=128 pins of a wave"]++
+			}
 		case "resp":
 			e.classes["ev:response"]++
 			if e.pins[h.IDs[v.Txn]] == nil {
@@ -549,7 +561,7 @@ func (e *env) run(h hist, probe bool) error {
 	}
 	// closing probe: every transaction is answered once more, and a brand-new
 	// transaction must see the current version
-	for _, id := range h.IDs {
+	for _, id := range append(append([]string{}, h.IDs...), e.extra...) {
 		if e.pins[id] != nil {
 			if err := e.lookup(id, "closing response"); err != nil {
 				return err
@@ -578,7 +590,17 @@ func genHist(maxEvents int) *rapid.Generator[hist] {
 		n := rapid.IntRange(1, maxEvents).Draw(t, "n")
 		evs := make([]event, 0, n)
 		txns := 0
+		// one history in four has a wave of traffic somewhere: more transactions inside the retention than a
+		// handful (the pins of a busy gateway number in the thousands)
+		waveAt := -1
+		if rapid.IntRange(0, 3).Draw(t, "wave") == 0 {
+			waveAt = rapid.IntRange(0, n-1).Draw(t, "waveAt") / 2
+		}
 		for len(evs) < n {
+			if len(evs) == waveAt {
+				evs = append(evs, event{K: "burst", N: rapid.SampledFrom([]int{40, 127, 128, 129, 150, 260, 600}).Draw(t, "waveN")})
+				continue
+			}
 			kinds := []string{"req", "req", "reload", "reload", "adv", "adv", "adv"}
 			if txns > 0 {
 				kinds = []string{"resp", "resp", "resp", "resp", "adv", "adv", "adv", "reload", "reload", "reload", "req", "req", "until"}
